@@ -104,7 +104,57 @@ def run(R, only_cases=None):
         if reported and not r["load"].startswith("err:Untrusted"):
             R.violation({"kind": "reported-but-loaded", "loader": loader}, f"{c['name']} is reported for {loader}@{proto} but load(trusted=None) gave {r['load']}",
                         {"case": {k: c[k] for k in ("schema", "members", "show", "loader", "name", "tag")}, "T": None, "observed": r})
+    if only_cases is None:
+        nested(R, snap, rnd)
     probes(R)
+
+
+def nested(R, snap, rnd):
+    """name-bearing nodes at ANY nesting position: every state of a generated (well-formed) archive whose name is not a
+    default of its own kind (or handed down by a Tree/Loss ancestor) must be reported when no trusted list is given"""
+    import gen_archives as G
+    n = 250 if R.tier == "quick" else 2500
+    cases = []
+    while len(cases) < n:
+        c = G.gen_case(rnd, malformed_p=0.0)
+        c["tspec"], c["show"] = "none", "all"
+        cases.append(c)
+    recs, bad, _ = IO.run_batch(R, cases, aspects=("gut", "audit"), tag="c11n")
+    IO.report_disagreements(R, cases, recs, bad, "C11/nested")
+    reg = {(l, p): c for l, p, c in snap["registry"]}
+    cur = snap["protocol"]
+    handed_down = {x for r in snap["classes"].values() for x in r["down_extra"]}
+    for c, r in zip(cases, recs):
+        if not r["gut"].startswith("ok:"):
+            continue
+        gut = set(r["gut"][3:].split(","))
+        proto = c["schema"].get("protocol")
+        seen_ids = set()
+        for path, st in G.all_paths(c["schema"]):
+            if not (isinstance(st, dict) and isinstance(st.get("__loader__"), str)):
+                continue
+            sid = st.get("__id__")
+            key = json.dumps(sid)
+            if sid and key in seen_ids:
+                continue        # a repeated id is the memoised node, its own text is never read
+            seen_ids.add(key)
+            loader = st["__loader__"]
+            tag = reg.get((loader, proto if type(proto) is int else cur)) or reg.get((loader, cur))
+            if tag is None or loader in NAME_IGNORED:
+                continue
+            if loader == "FunctionNode" and tag.startswith("old."):
+                cont = st.get("content") if isinstance(st.get("content"), dict) else {}
+                m, k = cont.get("module_path"), cont.get("function")
+            else:
+                m, k = st.get("__module__"), st.get("__class__")
+            if not (isinstance(m, str) and isinstance(k, str)):
+                continue
+            name = f"{m}.{k}"
+            if name in gut or name in snap["classes"][tag]["defaults"] or name in handed_down:
+                continue
+            R.violation({"kind": "nested-name-accepted-by-default", "loader": loader, "slot": str(path[-1]) if path else "root"},
+                        f"{loader} at {list(path)} names {name}: neither a default of that kind nor reported by get_untrusted_types ({sorted(gut)})",
+                        {"case": {k2: c[k2] for k2 in ("schema", "members", "show")}, "T": None, "observed": {"gut": r["gut"], "load": r["load"]}})
 
 
 def probes(R):
